@@ -629,6 +629,18 @@ def draw_input(ctx, model):
             run.violation(f"history:{kind}:{kinds}:object-changed", dict(input=snap, history=h, observed=what))
             return None
         how += "+history"
+    if rng.random() < 0.1:
+        # tiny overall scale (1e-18 .. 1e-13) carried by the tensors themselves: nothing in a gauge move may depend on the
+        # absolute size of the object
+        sc = float(10 ** rng.uniform(-18, -13))
+        try:
+            k = int(X.qnidx)
+            X[k] = X[k].array * sc if hasattr(X[k], "array") else np.asarray(X[k]) * sc
+            E = lc.dense_state(X)
+            how += "+tiny-scale"
+        except Exception as e:  # noqa
+            run.count(f"rejected:tiny-scale-prep:{type(e).__name__}")
+            return None
     run.count(f"input:{lc.kind_of(X)}:{how}")
     run.count("input:" + ("complex" if X.is_complex else "real"))
     if min(X.bond_dims[1:-1] or [0]) == 1:
